@@ -28,3 +28,5 @@ def run(ctx):
     det = [TW.gen_c20_det(ctx.seed, i) for i in range(ctx.scale(400, 6000))]
     base.run_twin(ctx, "row_permutation", det)
     base.run_twin(ctx, "reward_shift_scale", det)
+    large = [TW.gen_c20_large(ctx.seed, i) for i in range(ctx.scale(10, 100))]
+    base.run_twin(ctx, "row_permutation", large, shrink=False)
